@@ -30,14 +30,18 @@ func init() {
 // RegisterDecorationName declares a given name to provide a given style.
 // Existing entries may be overwritten.
 func RegisterDecorationName(name string, decor Decoration) {
+	simYield("register.lock")
 	registry.Lock()
 	registry.table[name] = decor
 	registry.Unlock()
+	simYield("register.unlock")
 }
 
 // RegisteredDecorationNames returns a sorted list of registered decoration
 // names.
 func RegisteredDecorationNames() []string {
+	simYield("names.lock")
+	defer simYield("names.unlock")
 	registry.Lock()
 	defer registry.Unlock()
 	a := make([]string, len(registry.table))
@@ -54,9 +58,11 @@ func RegisteredDecorationNames() []string {
 // The name is a simple string instead of typed, so as part of the point of this API
 // is that callers don't need to explicitly import this package.
 func Named(n string) Decoration {
+	simYield("named.lock")
 	registry.Lock()
 	d, ok := registry.table[n]
 	registry.Unlock()
+	simYield("named.unlock")
 	if ok {
 		return d
 	}
